@@ -28,6 +28,7 @@ ASSUMPTIONS = [
     "caller headers never contain Authorization when the chain authenticates; never two auth layers (package asserts on both)",
     "header names are compared case-insensitively (urllib capitalises them)",
     "addresses have at most one trailing slash",
+    "params are dictionaries ('params: dictionary of request parameters'); sequences of (name, value) pairs are not generated",
 ]
 
 ADDRS = ["http://h.invalid", "http://h.invalid/", "https://h.invalid:8443", "https://h.invalid/base", "HTTPS://H.invalid/b/"]
